@@ -523,12 +523,16 @@ package backend
 //@ func (*WatcherHub).DeleteWatcher(sub, lock)
 //@   props C19 C05
 //@   not_spawned a skipped subscriber is removed before the hub takes the next batch
+//@   chan_ops_under w
 //@   nosafety
 //@   requires w != nil && w.metricCli != nil
 //@   requires [caller-holds-the-lock-or-asks-for-it] lock || holds_w(w)
 //@   modifies inferred:(*WatcherHub).DeleteWatcher
+// a subscriber's channel is closed by DeleteWatcher under the hub's write lock; Stream may therefore send
+// on subscriber channels only while it holds the hub's lock, or a send could meet a closed channel
 //@ func (*WatcherHub).Stream(input)
-//@   props C19
+//@   props C19 C05
 //@   nosafety
+//@   chan_ops_under w
 //@   requires w != nil && w.metricCli != nil
 //@   modifies inferred:(*WatcherHub).Stream
